@@ -70,9 +70,9 @@ DeserElem(ss, k, occ, kind) ==
                            IN IF sk = 0 THEN Res(FALSE, FALSE, 0, 0) ELSE Plus(prev, DeserElem(ss, sk, kids[j], kind))
         IN IF i # 0 /\ ~fs[i].vec /\ Len(kids) > 1 THEN Res(FALSE, FALSE, 0, 0)    \* duplicate field
            ELSE each[Len(kids)]
-      kidsRes == LET ks == CHOOSE s \in [1..Cardinality(keys) -> keys] : \A a, b \in 1..Cardinality(keys) : s[a] = s[b] => a = b
-                     acc[j \in 0..Cardinality(keys)] == IF j = 0 THEN Res(TRUE, TRUE, 0, 0) ELSE Plus(acc[j - 1], KeyRes(ks[j]))
-                 IN acc[Cardinality(keys)]
+      kidsRes == LET ks == SetToSeq(keys)          \* (any order: Plus is commutative)
+                     acc[j \in 0..Len(ks)] == IF j = 0 THEN Res(TRUE, TRUE, 0, 0) ELSE Plus(acc[j - 1], KeyRes(ks[j]))
+                 IN acc[Len(ks)]
       \* every field that is neither Option nor present is a "missing field" error
       present(f) == \/ \E j \in 1..Len(occ.attrs) : AttrKey(kind, occ.attrs[j]) = Bound(f)
                     \/ KidsNamed(occ, Bound(f)) # <<>>
